@@ -130,6 +130,7 @@ Record block : Type := {
   b_multi : bool;              (* brace-list overload (optional [names] counted) vs single-name overload *)
   b_parms : list tok;
   b_variant : list tok;     (* aliases that select the variant inside the block (via opt_parms[0]) *)
+  b_geo : list tok;         (* one entry per Geometry built in the block: the boolean option variable passed as OLD_ORDERING, [] if none *)
   b_doc : list (pkind * bool); (* parameters in the order the help text lists them; true = optional *)
   b_uses : list use }.
 Inductive kind : Type := KString | KDouble | KBool.
@@ -389,4 +390,23 @@ Definition conv_plan_of (table : list (tok * tok)) (t : tool) (argv : list tok) 
               cp_in_fmt := match inf with [] => tok_auto | _ => inf end;
               cp_out := var_value t argv (cv_out_file cv);
               cp_out_fmt := match outf with [] => format_of_suffix table (var_value t argv (cv_suffix cv)) | _ => outf end |}
+  end.
+
+(* ---------------------------------------------------------------- the ordering flag reaches every Geometry *)
+Definition flag_decls (t : tool) : list decl := filter (fun d => match d_kind d with KBool => true | _ => false end) (t_decls t).
+(* value of the boolean option variable v (false for an unknown variable and for the empty name) *)
+Definition flag_value (t : tool) (argv : list tok) (v : tok) : bool :=
+  match find (fun d => tok_eqb (d_var d) v) (flag_decls t) with
+  | Some d => bool_value argv (d_name d) false
+  | None => false
+  end.
+(* OLD_ORDERING handed to each Geometry the block builds *)
+Definition block_orderings (t : tool) (argv : list tok) (b : block) : list bool := map (flag_value t argv) (b_geo b).
+Definition tok_old_ordering : tok := [45; 111; 108; 100; 45; 111; 114; 100; 101; 114; 105; 110; 103].   (* "-old-ordering" *)
+Definition ordering_var (t : tool) : option tok :=
+  match find (fun d => tok_eqb (d_name d) tok_old_ordering) (flag_decls t) with Some d => Some (d_var d) | None => None end.
+Definition geo_ordering_ok (t : tool) : bool :=
+  match ordering_var t with
+  | None => true
+  | Some v => forallb (fun b => forallb (tok_eqb v) (b_geo b)) (t_blocks t)
   end.
